@@ -393,7 +393,57 @@ func c06Shape(c *Ctx, sh *jShape, seed int64) {
 	}
 }
 
+// c06CyclicTargets: decode targets that are themselves cyclic - an interface that holds a pointer leading back to
+// itself in one, two or three hops, a struct whose interface field points at the struct, a map holding a pointer to
+// itself: whatever the document, the decoders return
+type cycT struct {
+	A any
+	N *cycT
+	M map[string]any
+}
+
+func c06CyclicTargets(c *Ctx) {
+	mk := []func() any{
+		func() any { var v any; v = &v; return &v },
+		func() any { var v any; pv := &v; v = &pv; return &v },
+		func() any { var v any; pv := &v; ppv := &pv; v = &ppv; return &v },
+		func() any { var v any; pv := &v; v = &pv; return v },
+		func() any { t := &cycT{}; t.A = t; t.N = t; return t },
+		func() any { t := &cycT{}; var a any = t; t.A = &a; return t },
+		func() any { t := &cycT{M: map[string]any{}}; t.M["A"] = &t.M; t.A = &t.M; return t },
+		func() any { m := map[string]any{}; m["m"] = &m; return &m },
+		func() any { s := make([]any, 1); s[0] = &s; return &s },
+	}
+	docs := []string{`{"A":1}`, `{"A":{"A":{"A":2}},"N":{"N":{"A":[1]}},"M":{"A":{"x":1}},"m":{"m":{"m":3}}}`, `[[[1]]]`, `"s"`, `null`, `7`, `{"A":`, `[`, `{"m":null}`, `[null]`}
+	for ti, f := range mk {
+		for _, doc := range docs {
+			k := c06Case{Kind: "cyclic-target", Chain: ti, Doc: doc}
+			for _, api := range []string{"Unmarshal", "Parse", "Decoder"} {
+				c.Eval(1)
+				c.Case()
+				p, hung := guarded(func() {
+					x := f()
+					switch api {
+					case "Unmarshal":
+						json.Unmarshal([]byte(doc), x)
+					case "Parse":
+						json.Parse([]byte(doc), x, json.ZeroCopy)
+					default:
+						json.NewDecoder(strings.NewReader(doc)).Decode(x)
+					}
+				})
+				if hung {
+					c.Diverge("C06", "json."+api+"(cyclic target)", "returns", "timeout: still running after 20s", "", k)
+				} else if p != "" {
+					c.Diverge("C06", "json."+api+"(cyclic target)", "a returned error at worst", p, "", k)
+				}
+			}
+		}
+	}
+}
+
 func c06Extra(c *Ctx) {
+	c06CyclicTargets(c)
 	// cycles and dead-end chains at the cycle detector's threshold
 	for _, n := range []int{1, 2, 3, 999, 1000, 1001, 2500} {
 		for _, via := range []string{"ptr", "slice", "map", "iface"} {
@@ -518,7 +568,7 @@ func c06Replay(c *Ctx, raw stdjson.RawMessage) {
 		c06Cycle(c, &cycleVec{Edges: k.Edges, Cyclic: &cy})
 	case k.Kind == "chain" || k.Kind == "struct-chain":
 		c06Chain(c, k.Chain, k.Via, k.Cyclic)
-	case strings.HasPrefix(k.Kind, "deep:"), k.Kind == "duration", k.Kind == "time", k.Kind == "typed-cycle":
+	case strings.HasPrefix(k.Kind, "deep:"), k.Kind == "duration", k.Kind == "time", k.Kind == "typed-cycle", k.Kind == "cyclic-target":
 		c06Extra(c)
 	case k.Kind == "doc":
 		c06Decode(c, k, []byte(k.Doc))
